@@ -335,12 +335,20 @@ def known_lease_channel():
 KNOWN = {'KF-C01-lease-channel-elements-before-request': known_lease_channel}
 
 
+def _run(d):
+    """one end-to-end run; a slice of the runs has the library's frame logging switched on (payloads are binary)"""
+    from harness.common import debug_logging
+    with debug_logging(d.get('debug_log', False)):
+        return Run(d).run()
+
+
 def mk_descs(rng, n):
     out = []
     for _ in range(n):
         out.append({'seed': rng.randrange(1 << 30), 'lenreq': rng.random() < 0.65,
                     'frag_client': rng.choice([None, 64, 64, 100]), 'frag_server': rng.choice([None, 64, 64, 100]),
                     'interactions': rng.randint(2, 8), 'steps': rng.randint(20, 120), 'lease': rng.random() < 0.25, 'gated': rng.random() < 0.45})
+        out[-1]['debug_log'] = random.Random(out[-1]['seed'] ^ 0x5EED).random() < 0.15
     return out
 
 
@@ -377,7 +385,7 @@ def correspond(ctx, corr, model_ok):
     descs = mk_descs(ctx.rng, n)
     cases = []
     for d in descs:
-        run = Run(d).run()
+        run = _run(d)
         corr.oracle_failures.extend(run.failures)
         if run.result['escaped']:
             corr.oracle_failures.append({'what': 'exception-escaped', 'run': d, 'detail': run.result['escaped'][:2]})
@@ -458,7 +466,7 @@ def search(ctx, budget):
     found = []
     while time.time() - t0 < budget and not found:
         for d in mk_descs(ctx.rng, 20):
-            run = Run(d).run()
+            run = _run(d)
             found.extend(run.failures)
         found.extend(reconnect_oracle())
         from harness import netrec
@@ -479,7 +487,7 @@ def replay(obj):
         from harness import netrec
         r = dict(case['run'])
         return bool(netrec.oracle(netrec.run_one(r.pop('seed'), **r)))
-    run = Run(case['run']).run()
+    run = _run(case['run'])
     return bool(run.failures)
 
 
